@@ -263,6 +263,16 @@ def session_anomalies(case, out):
             res.append(('pool-keeps-half-initialised-connection:%s' % ('fk_on' if pr['fk'] != 1 else 'cslike'),
                         'a connection whose initialisation failed stays in the pool and is handed to later sessions (foreign_keys=%s, case_sensitive_like=%s; %s, faults [%s] = %s)'
                         % (pr['fk'], pr['case_sensitive_like'], tag, faults, where)))
+    # a ddl session that switched foreign keys off on a connection must try to switch them on again before it gives the connection up
+    off = {}
+    for e in out['trace']:
+        if e[0] == 'execute' and e[1] == 'fk_off' and e[3]: off[e[2]] = True
+        elif e[0] == 'execute' and e[1] == 'fk_on' and off.get(e[2]): off[e[2]] = False
+        elif e[0] == 'close' and off.get(e[2]):
+            # allowed only when the release itself was never reached (the connection was dropped by an error path)
+            if not case.get('faults') and not out.get('real_failures'):
+                res.append(('ddl-foreign-keys-not-restored:%s' % case['shape'], 'a ddl session switched PRAGMA foreign_keys off and released the connection without switching it on again (%s, ops %s)' % (tag, case['ops'])))
+            off[e[2]] = False
     if out.get('follow_other') != 'ok':
         res.append(('following-session-other-thread-%s:%s' % (out.get('follow_other'), where), 'a following session in another thread does not work: %s (%s, faults [%s] = %s)' % (out.get('follow_other'), tag, faults, where)))
     if out.get('follow_same') not in ('ok',):
